@@ -17,4 +17,10 @@ SolverCmds ==
      Cmd("reset", 0, 0, ""), Cmd("solve", 0, 0, ""), Cmd("solve_assuming", 3, 0, ""),
      Cmd("is_sat", 3, 0, ""), Cmd("is_valid", 4, 0, ""), Cmd("is_unsat", 3, 0, "")}
 
+\* the API of a solver driven through the textual SMT-LIB interface (C17)
+SlsCmds ==
+    {Cmd("assert", 1, 0, ""), Cmd("assert", 2, 0, ""), Cmd("assert", 3, 0, ""),
+     Cmd("push", 0, 1, ""), Cmd("push", 0, 2, ""), Cmd("pop", 0, 1, ""), Cmd("pop", 0, 2, ""),
+     Cmd("reset", 0, 0, ""), Cmd("solve", 0, 0, ""), Cmd("get_value", 0, 0, ""), Cmd("get_model", 0, 0, ""),
+     Cmd("is_sat", 4, 0, ""), Cmd("is_valid", 5, 0, ""), Cmd("is_unsat", 4, 0, "")}
 =============================================================================
